@@ -521,6 +521,7 @@ func main() {
 			ex := explore.New(b)
 			ex.Total = tot
 			ex.Stop = rep.Expired
+			vsched.StateSink = rep.State
 			ex.Explore(func(x *explore.Exec) { check(x, sc, execute(x, sc, -1)) })
 			rep.AddStats(sc, &ex.Stats)
 		},
